@@ -350,8 +350,18 @@ const c11kindsGj = `module gj { namespace "urn:gj"; prefix gj; revision 2020-01-
  typedef t { type string; }
 }`
 
-const c11kindsModule = `module g { namespace "urn:g"; prefix g; import gi { prefix gi; } revision 2020-01-01;
+const c11kindsGs = `submodule gs { belongs-to g { prefix g; }
+ feature sf;
+ leaf subl { if-feature sf; type string; } leaf subf { if-feature f; type string; }
+}`
+
+const c11kindsModule = `module g { namespace "urn:g"; prefix g; import gi { prefix gi; } include gs; revision 2020-01-01;
  feature f; feature h;
+ leaf mainl { if-feature "sf and h"; type string; }
+ grouping grp3 { leaf r1 { if-feature "not f"; type string; } leaf r2 { type string; } container rc { if-feature h; leaf in { type string; } } }
+ container rr { uses grp3 { refine r1 { description "r1d"; } refine r2 { description "r2d"; } augment rc { leaf added { type string; } } } }
+ container hc { if-feature h; leaf hl { type string; } }
+ augment "/hc" { leaf ha { type string; } }
  container ig { uses gi:igrp; }
  grouping grp { leaf gl { type string; } leaf gl2 { type string; description "orig2"; } leaf gl3 { type string; description "orig3"; } }
  container c { if-feature f; leaf x { type string; } }
@@ -372,9 +382,9 @@ const c11kindsModule = `module g { namespace "urn:g"; prefix g; import gi { pref
 
 // every guardable statement kind, feature on and off
 func c11kinds(c *core.Ctx) {
-	for cfg := 0; cfg < 8; cfg++ {
+	for cfg := 0; cfg < 16; cfg++ {
 		{
-			fOn, hOn, kOn := cfg&1 == 0, cfg&2 == 0, cfg&4 == 0
+			fOn, hOn, kOn, sOn := cfg&1 == 0, cfg&2 == 0, cfg&4 == 0, cfg&8 == 0
 			var on []string
 			if fOn {
 				on = append(on, "f")
@@ -385,7 +395,10 @@ func c11kinds(c *core.Ctx) {
 			if kOn {
 				on = append(on, "k")
 			}
-			opener := source.Any(source.Named("g", strings.NewReader(c11kindsModule)), source.Named("gi", strings.NewReader(c11kindsGi)), source.Named("gj", strings.NewReader(c11kindsGj)))
+			if sOn {
+				on = append(on, "sf")
+			}
+			opener := source.Any(source.Named("g", strings.NewReader(c11kindsModule)), source.Named("gi", strings.NewReader(c11kindsGi)), source.Named("gj", strings.NewReader(c11kindsGj)), source.Named("gs", strings.NewReader(c11kindsGs)))
 			m, err := parser.LoadModuleWithOptions(opener, "g", parser.Options{Features: meta.FeaturesOn(on)})
 			if err != nil {
 				c.Violation(core.Replay{Kind: "property-failure", Class: "kinds-load", Summary: fmt.Sprintf("module with if-feature on every statement kind fails to load with features %v: %v", on, err), Input: c11kindsModule})
@@ -401,6 +414,10 @@ func c11kinds(c *core.Ctx) {
 				"/ub/gc/in": true, "/ub/gc/ubl": fOn, "/ub/gc/ubn": !fOn, "/ub/gc/ubk": true,
 				// a grouping of an imported module guarded by that module's feature
 				"/ig/il": kOn, "/ig/im": true, "/ig/in": kOn && fOn,
+				// a feature declared in a submodule is a feature of the module
+				"/subl": sOn, "/subf": fOn, "/mainl": sOn && hOn,
+				// refines and augments whose target a false feature left out have nothing to do; the others still apply
+				"/rr/r1": !fOn, "/rr/r2": true, "/rr/rc": hOn, "/rr/rc/added": hOn, "/hc": hOn, "/hc/ha": hOn,
 			}
 			paths := make([]string, 0, len(expect))
 			for p := range expect {
@@ -425,6 +442,12 @@ func c11kinds(c *core.Ctx) {
 				c.Evaluations++
 				if n.Props["description"] != want {
 					c.Violation(core.Replay{Kind: "property-failure", Class: "refine-guard", Summary: fmt.Sprintf("features %v: refine gl2 description %q, want %q", on, n.Props["description"], want), Input: c11kindsModule})
+				}
+			}
+			if n := d.Find("/rr/r2"); n != nil {
+				c.Evaluations++
+				if n.Props["description"] != "r2d" {
+					c.Violation(core.Replay{Kind: "property-failure", Class: "refine-after-missing", Summary: fmt.Sprintf("features %v: refine r2 (after a refine of a node a feature left out) description %q, want \"r2d\"", on, n.Props["description"]), Input: c11kindsModule})
 				}
 			}
 			if n := d.Find("/r/gl3"); n != nil {
